@@ -134,7 +134,23 @@ def confirm(v):
     return ri * 10 ** (M - rs) != ei * 10 ** (M - es), '%s (exact: %d@%d)' % (out, ei, es)
 
 
-def validate(prog, rng, n):
+def in_known_region(x, scale, p):
+    a = abs(x)
+    nd = len(str(a))
+    req = 3 * (p + 4)
+    e = max(req - nd, 0)
+    while (e + scale) % 3:
+        e += 1
+    N = a * 10 ** e
+    r = K._iroot(N, 3)
+    k = len(str(r)) - p
+    if k <= 0 or r ** 3 == N:
+        return False
+    rem = r % 10 ** k
+    return rem == 0 or 2 * rem == 10 ** k
+
+
+def validate(prog, rng, n, rep=None):
     cases = []
     for i in range(n):
         nd = rng.randint(1, 30)
@@ -147,6 +163,13 @@ def validate(prog, rng, n):
         S.DIGIT_BOUND[0] = 200
         S.BITS_MODE[:] = ['uf', 0]
         for (x, sc, p, mode), nat in zip(cases, outs):
+            if rep is not None and not in_known_region(x, sc, p) and not nat.startswith('PANIC'):
+                ri, rs = H.parse_dec(nat)
+                ei, es = exact_cbrt_rounded(x, sc, p, mode)
+                M = max(rs, es)
+                if ri * 10 ** (M - rs) != ei * 10 ** (M - es):
+                    H.probe_violation(rep, PROP, 'native cbrt(%d@%d, p=%d, %s) = %s, exact %d@%d' % (x, sc, p, mode, nat, ei, es), {'nd': len(str(abs(x))), 'scale': sc, 'p': p, 'mode': mode, 'sign': 1 if x >= 0 else -1}, {'n': abs(x)}, nat)
+                    continue
             m = E.Machine(prog, (), [], E.Stats(), loop_bound=6000)
             m.root_facts = []
             try:
@@ -213,7 +236,7 @@ def main(tier):
         else:
             rep.notes.append('known finding %s no longer reproduces natively' % f['id'])
     rep.extra['known_regions_seen_symbolically'] = {'sticky': sticky_seen}
-    rep.validated, rep.validation_mismatches = validate(prog, rng, 40 if tier == 'quick' else 400)
+    rep.validated, rep.validation_mismatches = validate(prog, rng, 150 if tier == 'quick' else 1500, rep)
     return rep.finish()
 
 
